@@ -165,6 +165,10 @@ where
     /// Panics when [done](Self::done) has been called before.
     pub fn insert(&mut self, value: T) -> bool {
         self.assert_not_done();
+        if self.hs.contains(&value) {
+            // The stored element is kept unchanged, thus there is nothing to report.
+            return false;
+        }
         self.change.notify();
 
         send_event(&self.tx, &*self.on_err, HashSetEvent::Set(value.clone()));
@@ -362,7 +366,7 @@ where
                 self.complete = true;
             }
             HashSetEvent::Set(v) => {
-                self.hs.insert(v);
+                self.hs.replace(v);
                 if self.hs.len() > self.max_size {
                     return Err(RecvError::MaxSizeExceeded(self.max_size));
                 }
